@@ -579,6 +579,20 @@ def stubcheck(d):
     return 0, out[-2000:]
 
 
+def empty_enum_module(modname, educe_list, bounds, functions, pre=''):
+    """`enum Ty {}` under the given traits: there is no value, so the only obligations are that the expansion compiles
+    (compiler verdict) and that the impls exist (a generic function bounded by them is instantiated)."""
+    h = Harness('h_empty', covers=['reached'])
+    body = pre + f'#[derive(Educe)]\n#[educe({educe_list})]\npub enum Ty {{}}\n' + f'fn need<T: {bounds}>() {{}}\n' + h.attrs() + '''pub fn h_empty() {
+    need::<Ty>();
+    let v: Option<Ty> = None;
+    kani::cover!(true, "reached");
+    assert!(v.is_none());
+}
+'''
+    return Module(modname, f'empty enum / {educe_list}', body, [h], sample=dict(type_definition=f'#[educe({educe_list})] enum Ty {{}}'), functions=functions)
+
+
 def run_e1(prop, tier, seed, modules, rule, bounds, assumptions, need_stubbing=False, features=None,
            lib_attrs='', harness_timeout=None, keep=False, extra=None, crate_tag='', validate_stub=False):
     """The whole E1 pipeline for one property. Returns exit code."""
@@ -589,6 +603,15 @@ def run_e1(prop, tier, seed, modules, rule, bounds, assumptions, need_stubbing=F
         modules = [m for m in modules if _re.search(flt, m.cfgid)]
     harness_timeout = harness_timeout or (120 if tier == 'quick' else 600)
     tag = f'{prop.lower()}{crate_tag}'
+    gen_only = os.environ.get('VERIF_GEN_ONLY')
+    if gen_only:
+        # developer aid (tools/macro_coverage.sh): write the harness crate and stop; nothing is checked, no evidence is written
+        gd = os.path.join(gen_only, tag)
+        shutil.rmtree(gd, ignore_errors=True)
+        os.makedirs(gd)
+        write_crate(gd, modules, 'hc_' + re.sub(r'\W', '_', tag), features=features, lib_attrs=lib_attrs)
+        print(f'generated {len(modules)} modules in {gd}')
+        return 0
     d = os.path.join(WORK, f'{tag}_{tier}_{os.getpid()}')
     os.makedirs(WORK, exist_ok=True)
     for old in os.listdir(WORK):
